@@ -466,6 +466,10 @@ func (k *checker) runLadder() {
 				}
 				ls := newLadderSet(kind, n, s)
 				k.runLadderSet(ls, nil)
+				if n == sizes[len(sizes)-1] {
+					// the top rung also built and queried with the process limited to three processors
+					c.WithProcs(3, func() { k.runLadderSet(newLadderSet(kind, n, s), nil) })
+				}
 				c.Nontrivial("ladder", kind, n, s)
 				c.Sample("ladder/"+kind, ls.lc)
 			}
